@@ -117,17 +117,51 @@ func c04Build(d *c04Desc) []byte {
 	return out
 }
 
-func c04Quiesce(p *Processor) {
-	quiet := time.Now()
-	deadline := time.Now().Add(2 * time.Second)
-	for time.Since(quiet) < 3*time.Millisecond && time.Now().Before(deadline) {
-		select {
-		case <-p.trackProgress:
-			quiet = time.Now()
-		default:
-			time.Sleep(50 * time.Microsecond)
+// c04Drain keeps reading the processor's progress channel (the processor blocks on it after every event),
+// so that a connect result arriving late can never wedge the processor loop
+type c04Drain struct {
+	mu     sync.Mutex
+	events int
+	last   time.Time
+	stop   chan struct{}
+}
+
+func c04StartDrain(p *Processor) *c04Drain {
+	d := &c04Drain{last: time.Now(), stop: make(chan struct{})}
+	go func() {
+		for {
+			select {
+			case <-p.trackProgress:
+				d.mu.Lock()
+				d.events++
+				d.last = time.Now()
+				d.mu.Unlock()
+			case <-d.stop:
+				return
+			}
 		}
+	}()
+	return d
+}
+
+// wait until at least one more event than [before] has been seen and nothing happened for 3 ms
+func (d *c04Drain) quiesce(before int) {
+	deadline := time.Now().Add(2 * time.Second)
+	for time.Now().Before(deadline) {
+		d.mu.Lock()
+		ok := d.events > before && time.Since(d.last) >= 3*time.Millisecond
+		d.mu.Unlock()
+		if ok {
+			return
+		}
+		time.Sleep(100 * time.Microsecond)
 	}
+}
+
+func (d *c04Drain) count() int {
+	d.mu.Lock()
+	defer d.mu.Unlock()
+	return d.events
 }
 
 func c04Run(descs []c04Desc) (obs c04Obs) {
@@ -141,6 +175,8 @@ func c04Run(descs []c04Desc) (obs c04Obs) {
 		obs.Note = "processor did not start"
 		return
 	}
+	drain := c04StartDrain(p)
+	defer close(drain.stop)
 	h := CommandsHandler{Processor: p}
 	var keys []AppKey
 	seen := map[*App]int{}
@@ -151,10 +187,11 @@ func c04Run(descs []c04Desc) (obs c04Obs) {
 		var tbl flatbuffers.Table
 		m.Data(&tbl)
 		keys = append(keys, UnmarshalAppInfo(tbl).Key())
+		before := drain.count()
 		if _, err := h.HandleMessage(RawMessage{Type: MessageTypeBinary, Bytes: msg}); err != nil {
 			obs.Note += "handle: " + err.Error() + "; "
 		}
-		c04Quiesce(p)
+		drain.quiesce(before)
 		app := p.apps[keys[i]]
 		if app == nil {
 			obs.Class = append(obs.Class, -1)
